@@ -50,5 +50,48 @@ TEXT = {
   "note": NOTE,
   "technique": "Coq proof (field-preservation static analysis of the IR + 256-value sweep lifted by forallb_forall) + correspondence + 256-first-byte oracle",
  },
+ "C10": {
+  "level": "Theorems C10_frame (every encoder output = first byte, minimal vbint of the body length, body), C10_one_write (exactly one Write with the whole frame; "
+           "(n, err) as the writer reports), C10_undefined, C10_total (no panic under the representation invariant), C10_string_size (the 'N bytes' token of "
+           "String() is the frame length). The positional two-pass fill (dry run with a nil slice, capacity guards) is not modelled: the model's encoders return "
+           "bytes; the Go two-pass mechanism is tied by correspondence on WriteTo output and wire-type fill hooks.",
+  "note": NOTE,
+  "technique": "Coq proof over the encoder IR + correspondence with scripted writers + every-k short-write oracle",
+ },
+ "C11": {
+  "level": "Theorems C11_readonly (in the model the read-only API consists of functions of the packet that return no packet) and C11_single_entry_maps (maps of "
+           "at most one entry, the only ones the encoders still range over, have one iteration order up to permutation). That the Go code has no other "
+           "order- or state-dependence is decided on the implementation: 33 in-process encodings interleaved with read-only operations and 4 fresh processes per packet.",
+  "note": NOTE + " Go map iteration order and hash seeds are runtime behaviour the model cannot exhibit.",
+  "technique": "Coq proof (purity of the model, permutation lemma) + repeated/cross-process encoding oracle",
+ },
+ "C12": {
+  "level": "Theorem C12_refines: for every packet type and every finite history of its setters, the accessors of the model equal those of an independent "
+           "record-of-fields specification (Spec/Fields.v) in which flags are functions of the stored values; proved by a simulation (C12_step) whose "
+           "bit-level lemmas cover all flag-byte states. History correspondence ties the model's one-line setters to the Go ones on every run.",
+  "note": NOTE,
+  "technique": "Coq refinement proof (simulation relation, finite case analysis of flag bytes) + history correspondence + last-write-wins oracle",
+ },
+ "C17": {
+  "level": "Theorems C17_publish, C17_filter, C17_subscribe (WellFormed reports an error iff the documented condition holds, for every packet value) and "
+           "C17_string (the ', malformed!' suffix is present iff WellFormed reports an error).",
+  "note": NOTE,
+  "technique": "Coq proof (iff characterisations) + correspondence of WellFormed/String + full-product oracle",
+ },
+ "C18": {
+  "level": "Theorems C18_dump, C18_string, C18_size: for any two CONNECT packets equal except for the bytes of equally long user name and password, Dump and String "
+           "produce identical token lists (literal text and fmt arguments) and every packet type's frame size depends on credentials only through their lengths. "
+           "fmt's rendering of a token is trusted to be a function of (verb, value).",
+  "note": NOTE,
+  "technique": "Coq non-interference proof over the render/encoder IR + String/Dump text correspondence + credential-pair oracle",
+ },
+ "C19": {
+  "level": "Theorems C19_string_total (String's only partial step, the encoder dry run, is defined under the invariant 'will flag => will allocated'), "
+           "C19_inv_zero/_step/_decode (the invariant holds for zero values, constructors, after every setter and after every decode, failed ones included), "
+           "C19_bytes (table renderings defined for all 256 values, finite sweep lifted). Dump is total by construction in the model; its Go partial "
+           "operations (nil checks, filters[0]) are tied by correspondence with PANIC as observable.",
+  "note": NOTE,
+  "technique": "Coq proof (representation invariant through setters and the decoder IR; 256-value sweep) + render correspondence + panic/watchdog oracle",
+ },
 }
 NOT_APPLICABLE = {}
